@@ -2,7 +2,8 @@
    usage: scen_wfs PROG SCHED ; ops: P<d> push node d; a = __cds_wfs_pop_all followed by cds_wfs_for_each_blocking over the returned head
    (the visited nodes are recorded); p = cds_wfs_pop_blocking (internal mutex); s = cds_wfs_pop_with_state_blocking; e = cds_wfs_empty;
    n = non-blocking pop under the lock (may report WOULDBLOCK); A = cds_wfs_pop_all_blocking (internal mutex) + iteration; R = push again the top node this
-   thread's last pop_all returned (node reuse by its owner; nothing if it owns none). The model (Wfs.v) covers P and a; the other ops are checked by the oracle only. */
+   thread's last pop_all returned (node reuse by its owner; nothing if it owns none); r = initialise and push again, at once, the node this thread's last successful p
+   returned (nothing if none). The model Wfs.v covers P and a, the model WfsMx.v covers P, p and r; the other ops are checked by the oracle only. */
 #define _LGPL_SOURCE
 #include <urcu/wfstack.h>
 #include <stdio.h>
@@ -13,7 +14,7 @@
 static struct cds_wfs_stack s; static struct cds_wfs_node n[10];
 static char *prog[MAXTH]; static int nprog;
 static void body(int t){
-  struct cds_wfs_node *own=0;
+  struct cds_wfs_node *own=0, *lastp=0;
   for(char *p=prog[t]; *p; p++){
 	if(*p=='P'){ struct cds_wfs_node *x=&n[p[1]-'0']; p++; vs_call("push",(unsigned long)x); int r=cds_wfs_push(&s,x); vs_ret("push",r); }
 	else if(*p=='a'){ vs_call("popall",0); struct cds_wfs_head *h=__cds_wfs_pop_all(&s); struct cds_wfs_node *x; char buf[256]; int l=0; buf[0]=0;
@@ -21,7 +22,8 @@ static void body(int t){
 	else if(*p=='A'){ vs_call("popall",0); struct cds_wfs_head *h=cds_wfs_pop_all_blocking(&s); struct cds_wfs_node *x; char buf[256]; int l=0; buf[0]=0;
 		cds_wfs_for_each_blocking(h,x){ if(!l) own=x; l+=sprintf(buf+l,"%d,",(int)(x-n)); } vs_note("chain %s",buf); vs_ret("popall",0); }
 	else if(*p=='R'){ if(own){ struct cds_wfs_node *x=own; own=0; cds_wfs_node_init(x); vs_call("push",(unsigned long)x); int r=cds_wfs_push(&s,x); vs_ret("push",r); } }
-	else if(*p=='p'){ vs_call("pop",0); struct cds_wfs_node *x=cds_wfs_pop_blocking(&s); vs_ret("pop",(unsigned long)x); }
+	else if(*p=='p'){ vs_call("pop",0); struct cds_wfs_node *x=cds_wfs_pop_blocking(&s); if(x) lastp=x; vs_ret("pop",(unsigned long)x); }
+	else if(*p=='r'){ if(lastp){ struct cds_wfs_node *x=lastp; lastp=0; cds_wfs_node_init(x); vs_call("push",(unsigned long)x); int r=cds_wfs_push(&s,x); vs_ret("push",r); } else vs_note("norepush"); }
 	else if(*p=='s'){ int st=0; vs_call("pops",0); struct cds_wfs_node *x=cds_wfs_pop_with_state_blocking(&s,&st); vs_note("state %d",st); vs_ret("pops",(unsigned long)x); }
 	else if(*p=='n'){ vs_call("popnb",0); cds_wfs_pop_lock(&s); struct cds_wfs_node *x=__cds_wfs_pop_nonblocking(&s); cds_wfs_pop_unlock(&s); vs_ret("popnb",(unsigned long)x); }
 	else if(*p=='e'){ vs_call("empty",0); int r=cds_wfs_empty(&s); vs_ret("empty",r); } } }
